@@ -383,10 +383,20 @@ _EXTRA = {
     'R133': (['C02', 'C04', 'C11', 'C20'],
              'R133: in _configure_node the marker list unpacked from a datum is neither filtered, sliced nor emptied before it becomes part of the branch tuple.'),
     'R51': (['C20'], 'R51 (sibling): the end of a quoted string with an alignment is found from the right (the last quote), so escaped quotes inside the string are not taken for its end.'),
-    'R19': (['C03', 'C12'], 'R19 (sibling): parse / iterparse accept exactly the documented token-kind language (a target-less role before ")" and an aligned string concept included) - what encode writes must be readable.'),
+    'R19': (['C03', 'C12', 'C09'], 'R19 (sibling): parse / iterparse accept exactly the documented token-kind language (a target-less role before ")" and an aligned string concept included) - what encode writes must be readable.'),
     'R129': (['C08', 'C09', 'C01', 'C07'],
              'R129: in lex() every re-binding of the lines argument that can apply to non-string input keeps the items: no str.join of the items, no filter, no '
              '`split(...)[0]` / `partition(...)[0]` of an item.'),
+    'R134': (['C03', 'C02', 'C04', 'C20'],
+             'R134: in _process_epigraph the target of a branch is re-bound to formatted text only inside the loop over its markers (or with None excluded): a target without '
+             'markers - in particular a missing one - stays what it is.'),
+    'R135': (['C11', 'C12'],
+             'R135: Model.reify writes, and Model.dereify recognises, the instance triple of a relation node with the constant CONCEPT_ROLE - the same value that every '
+             'comparison in transform / layout / graph uses (counted on each run); a model setting in its place is reported.'),
+    'R8e': (['C03'], 'R8e (sibling): the token patterns recognise the documented classes; a quoted string with escaped quotes is one STRING token - what encode writes must be readable again.'),
+    'R79': (['C17'], 'R79 (sibling): reify_attributes selects the attribute triples by the VALUE of the role (== / !=), never by the identity of the string object (`is`), which differs between processes.'),
+    'R136': (['C05', 'C20'],
+             'R136: in _rearrange every path from entry to exit passes the loop that contains the recursive call (CFG path search): no early return cuts a subtree off.'),
     'R108': (['C03', 'C05', 'C12', 'C20'], 'R108: in configure no path leads from the _find_next call back to the loop head without the list of passed-over data having been used.'),
     'R87': (['C20', 'C17'], 'R87: the option tables main() builds once are only read by process/_process_in/_process_out (alias-following over what is unpacked from them).'),
     'R86': (['C01', 'C07', 'C08', 'C09', 'C19', 'C20', 'C11', 'C12', 'C17'], 'R86: an argument annotated as Iterable / Iterator / file is walked at most once on every path (a second walk of a file or generator finds nothing).'),
